@@ -26,6 +26,7 @@ class Expect:
         self.join_equality: bool = False
         self.tables: list[dict] = []        # {"unit": k, "grid": [[cell]]}; cell = {"toks":[...]} | {"v": value} | {"empty": True}
         self.tables_claimed: bool = False
+        self.nested_tables: int | None = None  # tables of a nested construct (not in self.tables); their number is claimed even when tables_claimed is False
         self.images: list[dict] = []        # {"sha","ctype","w","h","unit"}
         self.images_claimed: bool = False
         self.meta: dict[str, str] = {}
@@ -192,6 +193,9 @@ def check_tables(exp: Expect, tables: list[dict]) -> list[tuple[str, str]]:
     """C13.  tables: [{"grid": [[json value]], "dim": [r, c]}] in iterate_tables() order."""
     out = []
     if not exp.tables_claimed:
+        # nested tables: no claim on how a table inside a cell is flattened, but every table of the source is listed
+        if exp.nested_tables is not None and len(tables) != len(exp.tables) + exp.nested_tables:
+            out.append(("table-count", f"{len(tables)} tables returned for {len(exp.tables) + exp.nested_tables} in the source (nested tables counted one by one)"))
         return out
     if len(tables) != len(exp.tables):
         out.append(("table-count", f"{len(tables)} tables returned for {len(exp.tables)} in the source"))
